@@ -570,6 +570,14 @@ func (m *Machine) appendSlice(dst Slice, add []Value, elem types.Type) Slice {
 	}
 	nc := m.growCap(dst.cap, newLen, elem)
 	b := &Backing{v: make([]Value, nc), esize: m.P.sizes.Sizeof(elem)}
+	if m.lockset != nil && m.locksetOn {
+		m.lockset.allocatedObj(m, b)
+		defer func() {
+			for i := range b.v {
+				m.lockset.allocated(m, &b.v[i])
+			}
+		}()
+	}
 	for i := 0; i < dst.len; i++ {
 		b.v[i] = *dst.At(i)
 	}
